@@ -9,6 +9,7 @@
 
 mod c11;
 mod c18;
+mod dict;
 mod gen;
 mod minimise;
 mod rng;
@@ -187,7 +188,11 @@ fn c18_worker(a: &Args) -> i32 {
     let replay_dir = a.str("replay-dir", "/verif/replays");
     let max_viol = a.u64("max-violations", 3);
     let start = a.u64("start", 0);
-    let pool_arc = std::sync::Arc::new(Pool::load(&a.str("repo", "/repo")));
+    let pool_arc = std::sync::Arc::new({
+        let mut p = Pool::load(&a.str("repo", "/repo"));
+        p.xl_den = a.u64("xl-den", 1500) as u32;
+        p
+    });
     let rev = a.str("ref-order", "fwd") == "rev";
     let progress = a.kv.get("progress").cloned();
     let mut refsf = a.kv.get("dump-refs").map(|p| std::io::BufWriter::new(std::fs::File::create(p).unwrap_or_else(|e| die(&format!("{p}: {e}")))));
@@ -426,6 +431,8 @@ fn main() {
     let a = Args::parse();
     let cmd = a.pos.first().cloned().unwrap_or_default();
     init_process();
+    // tokens taken from the library's own source feed the generators
+    dict::load(&a.str("repo", "/repo"));
     // a panic that escapes the guarded sections is a harness error: say so (the silent
     // hook swallowed the message) and exit 2
     let code = std::panic::catch_unwind(std::panic::AssertUnwindSafe(|| dispatch(&cmd, &a))).unwrap_or_else(|_| {
@@ -446,6 +453,10 @@ fn dispatch(cmd: &str, a: &Args) -> i32 {
         "replay" => replay(a),
         "minimise" => minimise::run(a),
         "distinct" => distinct(a),
+        "dict" => {
+            println!("{:#?}", dict::get());
+            0
+        }
         // the stored schedule of a (minimised) file does not reproduce in this fresh process:
         // search seeded schedules for one that does and store it (exit 1 = found and rewritten)
         "research" => {
